@@ -530,6 +530,9 @@ fn seeds() -> Vec<(Deser, J)> {
     vec![
         (Deser::Image, obj(vec![("size", arr(vec![n("2"), n("3")])), ("channels", n("4")), ("data", s(&img4))])),
         (Deser::Image, obj(vec![("size", obj(vec![("height", n("2")), ("width", n("2"))])), ("channels", n("1")), ("data", s(&img1))])),
+        // the same kinds of document with the keys in the order size, data, channels
+        (Deser::Image, obj(vec![("size", arr(vec![n("2"), n("3")])), ("data", s(&img3b)), ("channels", n("3"))])),
+        (Deser::Image, obj(vec![("size", arr(vec![n("2"), n("3")])), ("data", s(&img4)), ("channels", n("4"))])),
         (Deser::Image, obj(vec![("data", s(&img3)), ("comment", arr(vec![s("x"), J::Null])), ("size", arr(vec![n("1"), n("5")]))])),
         (
             Deser::Glyph,
@@ -567,6 +570,8 @@ fn replacements() -> Vec<(&'static str, J)> {
         ("null", J::Null),
         ("true", J::Bool(true)),
         ("0", n("0")),
+        ("1", n("1")),
+        ("4", n("4")),
         ("-1", n("-1")),
         ("0.5", n("0.5")),
         ("1e308", n("1e308")),
@@ -609,8 +614,9 @@ fn size_variants() -> Vec<(&'static str, J)> {
     ]
 }
 
-const B64_VARIANTS: [&str; 10] = [
+const B64_VARIANTS: [&str; 12] = [
     "invalid-chars", "unpadded", "truncated", "extra-padding", "one-char", "non-ascii", "inner-space", "trailing-newline", "only-padding", "url-safe",
+    "padded-group-first", "padding-inside-group",
 ];
 
 fn b64_variant(k: usize, orig: &str) -> String {
@@ -627,6 +633,8 @@ fn b64_variant(k: usize, orig: &str) -> String {
         }
         7 => format!("{orig}\n"),
         8 => "====".to_string(),
+        10 => format!("AA=={}", &orig[4.min(orig.len())..]),
+        11 => format!("AA=A{}", &orig[4.min(orig.len())..]),
         _ => "-_-_".to_string(),
     }
 }
@@ -645,6 +653,9 @@ enum Op {
     Type(usize),
     Del,
     Dup,
+    /// repeat a `size` key at the end of its object with another size (a document that contradicts itself
+    /// after other keys were read)
+    DupSize(usize),
     Swap(usize, usize),
     Size(usize),
     B64(usize),
@@ -660,6 +671,7 @@ impl Op {
             Op::Type(_) => "type",
             Op::Del => "delete-key",
             Op::Dup => "duplicate-key",
+            Op::DupSize(_) => "repeat-size-key",
             Op::Swap(..) => "swap",
             Op::Size(k) => {
                 if *k < 3 {
@@ -680,7 +692,7 @@ impl Op {
     /// an ancestor (or the same node) mutated this way wipes out a mutation below it
     fn destroys_subtree(&self) -> bool {
         match self {
-            Op::Dup | Op::Swap(..) => false,
+            Op::Dup | Op::DupSize(_) | Op::Swap(..) => false,
             Op::Nest(k) => NEST_BROKEN[*k],
             _ => true,
         }
@@ -720,6 +732,7 @@ impl Mutation {
             Op::Type(k) => format!("{p} := \"{}\"", TYPE_NAMES[*k]),
             Op::Del => format!("delete {p}"),
             Op::Dup => format!("duplicate {p}"),
+            Op::DupSize(k) => format!("repeat {p} at the end of the object as size {}", size_variants()[*k].0),
             Op::Swap(i, j) => format!("swap children {i},{j} of {p}"),
             Op::Size(k) => format!("{p} := size {}", size_variants()[*k].0),
             Op::B64(k) => format!("{p} := base64 {}", B64_VARIANTS[*k]),
@@ -748,6 +761,7 @@ fn mutations_of(doc: &J, deser: Deser) -> Vec<Mutation> {
         if key == Some("size") {
             for k in 0..size_variants().len() {
                 push(out, Op::Size(k));
+                push(out, Op::DupSize(k));
             }
         }
         if key == Some("data") && matches!(node, J::Str(_)) {
@@ -806,7 +820,7 @@ fn mutations_of(doc: &J, deser: Deser) -> Vec<Mutation> {
 
 fn apply(doc: &mut J, m: &Mutation) -> bool {
     match &m.op {
-        Op::Del | Op::Dup => {
+        Op::Del | Op::Dup | Op::DupSize(_) => {
             let Some((last, parent_path)) = m.path.split_last() else {
                 return false;
             };
@@ -819,6 +833,8 @@ fn apply(doc: &mut J, m: &Mutation) -> bool {
             }
             if m.op == Op::Del {
                 members.remove(i);
+            } else if let Op::DupSize(k) = &m.op {
+                members.push(("size".to_string(), size_variants()[*k].1.clone()));
             } else {
                 let copy = members[i].clone();
                 members.push(copy);
@@ -858,7 +874,7 @@ fn apply(doc: &mut J, m: &Mutation) -> bool {
                     }
                     *node = cur;
                 }
-                Op::Del | Op::Dup => unreachable!(),
+                Op::Del | Op::Dup | Op::DupSize(_) => unreachable!(),
             }
             true
         }
@@ -1250,7 +1266,17 @@ fn worker_body(tier: Tier, seed: u64, mut w: WorkerCtx) {
                 w.note("class", Value::String(cls));
             }
             if c.a < 0 && class.starts_with("err:") {
-                w.note("bad_seed", json!(format!("seed {} ({d}, {route} route) is not accepted: {class}", c.seed)));
+                if deser == Deser::Image {
+                    // the image seeds are plain documents of the documented layout (size, channels 1/3/4, base64 data)
+                    // with their keys in several orders: the statement demands that they are read
+                    w.violation(&Violation {
+                        key: format!("image-input:seed-document-rejected:{route}"),
+                        what: format!("a well-formed image document is rejected ({route} route): {} -> {class}", squash(&doc.text(), 300)),
+                        witness: hostile_witness(&plan, &c),
+                    });
+                } else {
+                    w.note("bad_seed", json!(format!("seed {} ({d}, {route} route) is not accepted: {class}", c.seed)));
+                }
             }
         }
         if out.classes.len() == 2 && (out.classes[0].1 == "ok") != (out.classes[1].1 == "ok") {
@@ -1761,6 +1787,9 @@ fn eval_image_input(channels: usize, h: usize, w: usize, form: usize) -> Bad {
     let text = match form {
         0 => format!("{{\"size\":{size_arr},\"channels\":{channels},\"data\":\"{data}\"}}"),
         1 => format!("{{\"data\":\"{data}\",\"size\":{size_map},\"channels\":{channels}}}"),
+        3 => format!("{{\"size\":{size_arr},\"data\":\"{data}\",\"channels\":{channels}}}"),
+        4 => format!("{{\"data\":\"{data}\",\"channels\":{channels},\"size\":{size_arr}}}"),
+        5 => format!("{{\"channels\":{channels},\"size\":{size_map},\"data\":\"{data}\"}}"),
         _ => format!("{{\"channels\":{channels},\"data\":\"{data}\",\"extra\":[1,{{}}],\"size\":{size_arr}}}"),
     };
     let want: Vec<[u8; 4]> = (0..if matches!(channels, 1 | 3 | 4) { h * w } else { 0 })
@@ -1976,7 +2005,7 @@ fn run_part1(ctx: &Ctx, viol: &Violations, samples: &Samples) -> Part1 {
             if !matches!(ch, 1 | 3 | 4) && h * w > 100 {
                 continue;
             }
-            for form in 0..3 {
+            for form in 0..6 {
                 inputs.push((ch, h, w, form));
             }
         }
